@@ -30,6 +30,10 @@ theorem C09_unlocked_are_reads :
     (Generated.Locks.table.filter (fun r => !r.2.1)).all (fun r => r.2.2.all (fun c => c == "Size" || c == "Head")) = true := by
   decide
 
+/-- ScheduleJob consults the job's suspended flag (which PauseJob / ResumeJob change in place) and the trigger under the lock, so
+the whole call is one critical section as in the model (`Sched.schedule` is atomic); repaired defect b62cd12 -/
+theorem C09_schedule_reads_under_lock : Generated.Locks.scheduleReadsUnderLock = true := by decide
+
 /-- one call, as a body of micro-steps executed under the lock: here the multi-call bodies of
 PauseJob / ResumeJob are split at their queue calls (Get+check, Remove, Push), which is where a
 missing lock would let another thread in -/
